@@ -19,7 +19,7 @@ fn args(g: &mut Gen) -> A {
     let e1 = g.ex(1).build(); let e2 = g.ex(1).build(); let e3 = g.ex(2).build();
     let (v1, v2, v3) = (g.value().real, g.value().real, g.value().real);
     let cond = g.cond(1).build();
-    A { a, b, c, t, u, e1, e2, e3, v1, v2, v3, cond, n: g.rng.below(1000), flag: g.rng.chance(1, 2) }
+    A { a, b, c, t, u, e1, e2, e3, v1, v2, v3, cond, n: match g.rng.below(4) { 0 => 0, 1 => 1, _ => g.rng.below(1000) }, flag: g.rng.chance(1, 2) }
 }
 
 fn render_q<S: QueryStatementWriter + std::fmt::Debug>(s: &S) -> Vec<Option<(String, String, String)>> {
